@@ -3,7 +3,7 @@
 p=$1
 /venv/bin/python - <<PY
 import shutil,os,json
-src='/tmp/wt2/$p/_out'
+src='${SRC:-/tmp/wt2}/$p/_out'
 for k in (1,2,3):
     d=f'{src}/m{k}.diff'
     if not os.path.exists(d) or os.path.getsize(d)==0: continue
